@@ -77,3 +77,26 @@ impl Img {
         .expect("meta")
     }
 }
+
+/// The deflate and JPEG encoders allocate and free a few hundred KB per frame; glibc then trims
+/// and regrows the heap for every case (one `brk` pair each, dominated by page zeroing).
+/// Re-run this same process once with the glibc tunables that keep the heap top — output and exit
+/// status are passed through unchanged, the cases do not depend on it.
+#[allow(dead_code)]
+pub fn keep_heap() {
+    if std::env::var_os("MALLOC_TOP_PAD_").is_some() {
+        return;
+    }
+    let exe = match std::env::current_exe() {
+        Ok(e) => e,
+        Err(_) => return,
+    };
+    let st = std::process::Command::new(exe)
+        .args(std::env::args_os().skip(1))
+        .env("MALLOC_TOP_PAD_", "67108864")
+        .env("MALLOC_TRIM_THRESHOLD_", "268435456")
+        .status();
+    if let Ok(st) = st {
+        std::process::exit(st.code().unwrap_or(1));
+    }
+}
